@@ -453,6 +453,10 @@ def rule_03(task):
             )
         return
 
+    def _overrides(item, base, name):
+        # run(), view() and features() cannot be called here
+        return getattr(type(item), name, None) is not getattr(base, name)
+
     def _verify_analysis(a):
         return (
             all((isinstance(az, dawgie.Analyzer) for az in a.routines()))
@@ -482,6 +486,7 @@ def rule_03(task):
             [
                 svl,
                 tl,
+                _overrides(a, dawgie.Analyzer, 'run'),
                 _verify_version(a),
                 isinstance(a.name(), str),
                 isinstance(a.traits(), list),
@@ -511,6 +516,7 @@ def rule_03(task):
             [
                 pl,
                 svl,
+                _overrides(a, dawgie.Algorithm, 'run'),
                 _verify_version(a),
                 isinstance(a.name(), str),
                 isinstance(a.previous(), list),
@@ -547,6 +553,7 @@ def rule_03(task):
             [
                 svl,
                 tl,
+                _overrides(r, dawgie.Regression, 'run'),
                 _verify_version(r),
                 isinstance(r.name(), str),
                 isinstance(r.variables(), list),
@@ -555,7 +562,7 @@ def rule_03(task):
         )
 
     def _verify_state_vector(sv):
-        return _verify_version(sv)
+        return _overrides(sv, dawgie.StateVector, 'view') and _verify_version(sv)
 
     def _verify_task(t):
         return (
@@ -565,7 +572,7 @@ def rule_03(task):
         )
 
     def _verify_value(v):
-        return all([_verify_version(v)])
+        return all([_overrides(v, dawgie.Value, 'features'), _verify_version(v)])
 
     def _verify_version(item):
         result = isinstance(item._get_ver(), dawgie.VERSION)
